@@ -126,8 +126,11 @@ def oracle_system(M, bnds, o=None, points=None, rng=None):
     else:
         ref_pts = pts if small else corner_points(bnds, cap=1 << 12)
         for i, r in enumerate(M):
-            vals = [lhs(r, p) - r[0] for p in ref_pts]
-            want = (min(vals), max(vals))
+            if n > 12:       # too many corners to list: the extremes of a linear form over a box, term by term
+                want = (sum(min(c * lo, c * hi) for c, (lo, hi) in zip(r[1:], bnds)) - r[0], sum(max(c * lo, c * hi) for c, (lo, hi) in zip(r[1:], bnds)) - r[0])
+            else:
+                vals = [lhs(r, p) - r[0] for p in ref_pts]
+                want = (min(vals), max(vals))
             if tuple(o["row_bounds"][i]) != want:
                 fail("row_bounds", f"row {i}: row_bounds {o['row_bounds'][i]}, enumerated min/max {want}", row=i)
                 break
@@ -278,6 +281,10 @@ def run(res, tier, seed):
     for _ in range(extra):
         M, bnds, prof = gen_system(rng)
         run_oracle(res, M, bnds, rng=rng)
+    for _ in range(8 if tier == "quick" else 80):
+        M, bnds, x0 = gen_large_sparse_planted(rng)
+        res.count("large_sparse_polyhedra")
+        run_oracle(res, M, bnds, points=[x0], rng=rng)
     if tier != "quick":
         # exhaustive: every 1x1 and 1x2 system with b in -4..4, coefficients in -3..3, bounds from a fixed list
         blist = [(0, 1), (-2, 1), (1, 1), (0, 3)]
